@@ -33,7 +33,8 @@ def data_layout(P, layout):
     raise ValueError(layout)
 
 
-def body(ctx, conv, shape, bounds, as_coords, layout, nan_cells=None, mesh_opts=None, data_first=False, bounds_coords=False, coord_dtype=None):
+def body(ctx, conv, shape, bounds, as_coords, layout, nan_cells=None, mesh_opts=None, data_first=False, bounds_coords=False, coord_dtype=None, explicit=False):
+    pipeline.EXPLICIT_NAMES = explicit
     pipeline.builders.DATA_FIRST = data_first
     pipeline.builders.BOUNDS_AS_COORDS = bounds_coords
     try:
@@ -41,6 +42,7 @@ def body(ctx, conv, shape, bounds, as_coords, layout, nan_cells=None, mesh_opts=
     finally:
         pipeline.builders.DATA_FIRST = False
         pipeline.builders.BOUNDS_AS_COORDS = False
+        pipeline.EXPLICIT_NAMES = False
 
 
 def _body(ctx, conv, shape, bounds, as_coords, layout, nan_cells=None, mesh_opts=None, coord_dtype=None):
@@ -106,10 +108,23 @@ def _body(ctx, conv, shape, bounds, as_coords, layout, nan_cells=None, mesh_opts
         if conv == 'shoc_standard':
             ctx.check('u1' not in picked.data_vars, 'variables on another grid are absent from a face selection')
 
+    # every cell selected in one call, in linear order: entry n is cell n
+    picked_all = cv.select_indexes([cv.wind_index(n) for n in range(N)])
+    pa = picked_all['temp']
+    other = [d for d in ddims if d not in P.grid_dims['face']]
+    ok_dims = tuple(pa.dims) == tuple([d if d in other else 'index' for d in ddims if d in other or d == [g for g in ddims if g in P.grid_dims['face']][0]])
+    ctx.check(ok_dims and pa.sizes['index'] == N, 'selecting every cell in one call gives one entry per cell')
+    if ok_dims and pa.sizes['index'] == N:
+        oks = []
+        for n in range(N):
+            for t in (range(2) if 't' in ddims else [None]):
+                got = pa.values[tuple({'t': t, 'index': n}[d] for d in pa.dims)]
+                oks.append(same(got, flat[(t, n)] if t is not None else flat[n]))
+        ctx.check(And(*oks), 'entry n of a selection of every cell is element n of the flattened variable')
     # the order is a function of the dataset: reading it must not disturb the dataset, and a convention bound
     # afterwards to the same dataset sees the same cells in the same slots
     ctx.check(unchanged(P.ds, snap), 'reading geometry / selecting leaves the dataset as it was')
-    cv2 = type(cv)(P.ds)
+    cv2 = type(cv)(P.ds, **(dict(latitude='gy', longitude='gx') if pipeline.EXPLICIT_NAMES else {}))
     polygons2 = cv2.polygons
     oks = [len(polygons2) == N]
     for n in range(N):
@@ -195,6 +210,11 @@ def cases(tier):
         yield Case(f'{conv}:{shape[0]}x{shape[1]}:{bounds}:vars:plain:datafirst', body,
                    dict(conv=conv, shape=shape, bounds=bounds, as_coords=False, layout='plain', nan_cells=(), data_first=True),
                    patches=P, max_paths=500)
+    # coordinate variables named by the caller
+    for conv, shape, bounds in (('cf1d', (2, 3), 'none'), ('cf2d', (3, 2), 'stored')):
+        yield Case(f'{conv}:{shape[0]}x{shape[1]}:{bounds}:vars:plain:explicit-names', body,
+                   dict(conv=conv, shape=shape, bounds=bounds, as_coords=(conv == 'cf1d'), layout='plain', nan_cells=() if conv == 'cf1d' else None, explicit=True),
+                   patches=P, max_paths=5000, split=16)
     # whole-number axes stored in an integer type (see pipeline.int_coord_array: witness strength)
     for dt, layout in (('int32', 'plain'), ('int64', 'extra_first')):
         yield Case(f'cf1d:2x3:none:coords:{layout}:nan0:{dt}-coordinates', body,
